@@ -250,15 +250,19 @@ def discharge(ctx, chk, g, with_main=False):
             break
     chk.check(R3, not badc, "extinst_track", "ExtInstSetTracker::track can panic: %s" % badc[:2], raw.where("track", "ExtInstSetTracker"))
 
-    # disas_ext_inst
-    f = ctx.rspirv.fn("rspirv::binary::disassemble", "disas_ext_inst")
-    ss = sites(f["body"], lambda n: n[0] == "index")
-    ok = len(ss) == 4
-    for n, conds in ss:
-        ok = ok and any(c == "!((inst.operands.len() < 2))" for c in conds)
-        i = n[2]
-        ok = ok and (int_of(i) in (0, 1) or (i[0] == "range" and int_of(i[1]) == 2 and i[2] is None))
-    chk.check(R3, ok, "disas_ext_inst", "index sites: %s" % [(show(n), c) for n, c in ss], raw.where("disas_ext_inst", None, "disassemble.rs"), key="C04:disas_ext_inst")
+    # disas_ext_inst: no abstract case (0, 1, 2, many operands; any operand kinds; set/number known or not) panics
+    from . import disx
+    badc = []
+    for kinds in ([], ["IdRef"], ["IdRef", "LiteralExtInstInteger"], ["IdRef", "LiteralExtInstInteger", "IdRef", "IdRef"], ["LiteralBit32", "IdRef", "IdRef"]):
+        for have in (True, False):
+            for resolved in (True, False):
+                try:
+                    r, _ops = disx.ext_inst(ctx, kinds, have, resolved)
+                    if isinstance(r, tuple) and r and r[0] == "panic":
+                        badc.append((kinds, r[1]))
+                except Anchor as ex:
+                    badc.append((kinds, "not analysable: %s" % ex))
+    chk.check(R3, not badc, "disas_ext_inst", "disas_ext_inst can panic: %s" % badc[:2], raw.where("disas_ext_inst", None, "disassemble.rs"), key="C04:disas_ext_inst")
 
     # disas_constant caller
     calls = []
